@@ -57,13 +57,27 @@ var one = ref.SigHashOne()
 func check(ctx *pbt.Ctx, c Case) error {
 	m := c.Tx
 	n, nout := len(m.In), len(m.Out)
-	tx := ref.ToLib(m)
+	tx, via := ref.ToLibVia(m)
+	ctx.Label("object=" + via)
 	before := ref.Snapshot(tx)
 	small := n+nout <= 16
 
 	ctx.Labelf("nin=%s", countClass(n))
 	ctx.Labelf("nout=%s", countClass(nout))
 	ctx.Label("src=" + c.Src)
+	for i, o := range m.Out {
+		if len(o.Script) >= 65535 {
+			ctx.Labelf("huge_output:first=%v:over256k=%v", i == 0, len(o.Script) > 262144)
+		}
+	}
+	for _, in := range m.In {
+		if len(in.Unlock) >= 65535 {
+			ctx.Labelf("huge_unlock:over256k=%v", len(in.Unlock) > 262144)
+		}
+		if len(in.PrevScript) >= 65535 {
+			ctx.Labelf("huge_prevscript:over256k=%v", len(in.PrevScript) > 262144)
+		}
+	}
 	if n > nout {
 		ctx.Label("nin>nout")
 	}
@@ -222,11 +236,8 @@ func genCase(t *rapid.T) Case {
 			m.In[i].PrevScript = append(s, 0xab, 0x51, 0xab)
 		}
 	}
-	if len(m.In) <= 8 && rapid.IntRange(0, 59).Draw(t, "huge") == 0 {
-		i := rapid.IntRange(0, len(m.In)-1).Draw(t, "huge_at")
-		if !m.In[i].PrevNil {
-			m.In[i].PrevScript = gen.FillBytes(t, rapid.SampledFrom([]int{65535, 65536, 70000, 131071, 131072, 131073, 200000}).Draw(t, "huge_len"), "huge_script")
-		}
+	if len(m.In) <= 8 && rapid.IntRange(0, 39).Draw(t, "huge") == 0 {
+		gen.HugeField(t, &m)
 	}
 	return Case{Src: "gen", Tx: m}
 }
@@ -262,7 +273,8 @@ type Fresh struct {
 // library which hands out shared state does not poison later cases.
 func checkFresh(ctx *pbt.Ctx, c Fresh) error {
 	m := c.Tx
-	tx := ref.ToLib(m)
+	tx, via := ref.ToLibVia(m)
+	ctx.Label("object=" + via)
 	before := ref.Snapshot(tx)
 	flag := sighash.Flag(c.HashType)
 	in := m.In[c.Idx]
